@@ -59,6 +59,8 @@ CHECKS["C09"] = {
     "harnesses": [
         dict(_HTTP, harness="Harness_C09_http", setup="Setup_C09_http", reach=["http.executed", "http.refused"],
              what="Server.ServeHTTP -> GET.Do / POST.Do -> real Executor over 10 documents x operationName x 9 Accept headers x 4 ResponseHeaders configurations"),
+        dict(_HTTP, harness="Harness_C09_sequence", setup="Setup_C09_sequence", reach=["seq.executed", "seq.refused"], quick={"sample_models": 30, "sample_every": 7},
+             what="two requests (7 x 7 documents/operationNames, GET or POST each) through one server: the second executes exactly what it names"),
         dict(_HTTP, harness="Harness_C09_malformed", setup="Setup_C09_malformed", reach=["bodies.rejected", "bodies.ok"],
              what="malformed bodies / query strings on 4 HTTP transports: the answer carries a Content-Type"),
         dict(_HTTP, harness="Harness_C09_fallbacks", setup="Setup_C09_fallbacks", reach=["fallback.checked"],
@@ -100,8 +102,8 @@ CHECKS["C01"] = {
     "harnesses": [
         {"probe": "core", "harness": "Harness_C01_exec", "setup": "Setup_C01_exec", "reach": ["c01.compared"], "workers": 10, "sched": "first",
          "configs_quick": ["single", "follow"], "configs_thorough": ["single", "follow", "funcsyn", "wl1", "wl2", "omitptr", "follow_wl2"],
-         "quick": {"params": {"budget": 1}, "sample_models": 40, "sample_every": 9}, "thorough": {"params": {"budget": 2}, "sample_models": 200, "sample_every": 23},
-         "what": "generated executor (api.Generate at check time) vs reference on 8 operation families with symbolic @skip/@include variables and resolver/directive outcomes {value,null,error} within a deviation budget"},
+         "quick": {"params": {"budget": 2}, "sample_models": 40, "sample_every": 53}, "thorough": {"params": {"budget": 3}, "sample_models": 200, "sample_every": 523},
+         "what": "generated executor (api.Generate at check time) vs reference on 10 operation families with symbolic @skip/@include variables and resolver/directive outcomes {value,null,error} within a deviation budget"},
     ],
 }
 
